@@ -364,6 +364,8 @@ class Scheduler:
             # be written or a dependency id is unknown: the task has failed,
             # it must not stay submitted/running forever.
             logger.exception("Task %s (%s) failed unexpectedly", tid, name)
+            if proc is not None and proc.returncode is None:
+                await self._gentle_kill(proc)
             self.task_states[tid] = LocalStatus.FAILED
         else:
             self.task_states[tid] = LocalStatus.COMPLETED
